@@ -103,12 +103,37 @@ def sentinel_rule(ctx, rid):
         if isinstance(e, ast.Call) and norm(e.func) in ("os.path.isfile", "os.path.exists"):
             return file_v
         raise AnalysisError("idiom changed: term `%s` of the Reaper's use-default decision" % norm(e))
+    # which outcome of the decision builds the stand-ins?  (the loader's normal form may have turned `if not d: A else: B`
+    # into `if d: B else: A`, and a twin may write the decision either way round)
+    def _has_standin(stmts):
+        for s_ in stmts:
+            for x in ast.walk(s_):
+                if isinstance(x, ast.BinOp) and isinstance(x.op, ast.Mult) and any(isinstance(y, ast.Tuple) and any(norm(z).split(".")[-1].lstrip("_") in (pname.lstrip("_"), attr_of_param.lstrip("_")) for z in y.elts) for y in (x.left, x.right)):
+                    return True
+        return False
+    standin_when = True
+    hp = getattr(holder, "_parent", None)
+    ctrl = None
+    if isinstance(hp, ast.If) and hp.test is holder:
+        ctrl, pol = hp, True
+    elif isinstance(hp, ast.Assign) and isinstance(hp.targets[0], ast.Name):
+        vname = hp.targets[0].id
+        for fn_ in scan:
+            for x in walk_shallow(fn_.node):
+                if isinstance(x, ast.If) and norm(x.test) in (vname, "not " + vname):
+                    ctrl, pol = x, norm(x.test) == vname
+    if ctrl is not None:
+        in_body, in_else = _has_standin(ctrl.body), _has_standin(ctrl.orelse)
+        if in_body != in_else:
+            standin_when = pol if in_body else not pol
+        else:
+            raise AnalysisError("idiom changed: which outcome of the Reaper's use-default decision builds the stand-ins")
     if holder is not t:
         wrong = []
         for hd in (True, False):
             for wv in (True, False):
                 for fv in (True, False):
-                    if tv(holder, hd, wv, fv) != (hd and not wv and not fv):
+                    if (tv(holder, hd, wv, fv) == standin_when) != (hd and not wv and not fv):
                         wrong.append((hd, wv, fv))
         if wrong:
             hd, wv, fv = wrong[0]
